@@ -1406,6 +1406,9 @@ func (app *App) performSwitchover(clusterState map[string]*nodestate.NodeState, 
 	app.logger.Info().Msgf("switchover: newMaster is %s", newMaster)
 
 	newMasterNode := app.cluster.Get(newMaster)
+	if newMasterNode == nil {
+		return fmt.Errorf("switchover: new master %s is not a registered cluster host", newMaster)
+	}
 
 	// catch up
 	app.logger.Info().Msg("switchover: phase 4: catch up if needed")
